@@ -37,8 +37,13 @@ def handle (op : String) (args : List String) (impl : String) : Verdict :=
     | none => badInput "un arg"
     | some a =>
       match name with
-      | "neg" | "negref" => judgeValue (some a.neg) (Spec.neg a) impl name (a.int == 0)
-      | "abs" => judgeValue (some a.abs) (Spec.abs a) impl name (a.int == 0)
+      | "neg" | "negref" | "neg_dref" => judgeValue (some a.neg) (Spec.neg a) impl name (a.int == 0)
+      | "abs" | "abs_signed" | "abs_ref" => judgeValue (some a.abs) (Spec.abs a) impl name (a.int == 0)
+      -- Signed::signum: One::one(), Zero::zero() or -One::one()
+      | "signum" => judgeValue (some ⟨if a.int < 0 then -1 else if a.int == 0 then 0 else 1, 0⟩)
+                      ⟨if a.int < 0 then -1 else if a.int == 0 then 0 else 1, 0⟩ impl name (a.int == 0)
+      -- Signed::abs_sub(x, 0) = max(x, 0): zero (Zero::zero()) when x <= 0, else x - 0
+      | "abs_sub0" => judgeValue (if a.int ≤ 0 then some ⟨0, 0⟩ else evalOp .sub .RD .RD a ⟨0, 0⟩) (if a.int ≤ 0 then ⟨0, 0⟩ else a) impl name (a.int == 0)
       | "double" => judgeValue (some a.double) (Spec.add a a) impl name (a.int == 0)
       | "half" => judgeValue (some a.half) (Spec.half a) impl name (a.int == 0)
       | "square" => judgeValue (some a.square) (Spec.mul a a) impl name (a.int == 0)
